@@ -45,7 +45,7 @@ type MagEv struct {
 }
 
 func mapPath(p Path, t [2]*big.Int, k *big.Int) clipper.Path64 {
-	out := make(clipper.Path64, len(p))
+	out := newPath64(len(p))
 	for i, q := range p {
 		x := new(big.Int).Mul(big.NewInt(q[0]), k)
 		y := new(big.Int).Mul(big.NewInt(q[1]), k)
@@ -55,11 +55,11 @@ func mapPath(p Path, t [2]*big.Int, k *big.Int) clipper.Path64 {
 }
 
 func mapPaths(s Paths, t [2]*big.Int, k *big.Int) clipper.Paths64 {
-	out := make(clipper.Paths64, len(s))
+	out := newPaths64(len(s))
 	for i, q := range s {
 		out[i] = mapPath(q, t, k)
 	}
-	return out
+	return regPaths64(out)
 }
 
 // mapBack: Q = round((v - t) / k), half away from zero
